@@ -93,7 +93,7 @@ def jobs(tier, seed):
                   P=dict(P, nmax=6), modes=["pause"], name="pause-sweep")
     # actions canceled on the provider side (no workflow request): the workflow goes canceling through the task event
     js += batches("conduct", scale(tier, 160, 3000), scale(tier, 10, 100), gen="dag", gseed=seed + 9,
-                  P=dict(P, p_items=0.6, p_retry=0.1, p_expr_conc=0.2, xs_max=4, nmax=5), scheds=2, p_fail=0.35, exotic=0.7,
+                  P=dict(P, p_items=0.6, p_retry=0.1, p_expr_conc=0.2, xs_max=4, nmax=5), scheds=3, lazy=[0, 60, 90], p_fail=0.35, exotic=0.7,
                   exotic_kinds=["canceled"], name="provider-side-cancel")
     # actions that wait at the provider (pending / paused tasks)
     js += batches("parked", scale(tier, 120, 3000), scale(tier, 10, 100), gen="dag", gseed=seed + 10, p_fail=0.15,
